@@ -667,6 +667,13 @@ pub fn gen_problem(rng: &mut Rng, cfg: &GenCfg) -> SProblem {
         profiles.push(SProfile { name: "truck".into(), dur, dist });
     }
 
+    // keep scaled durations integral: a profile used with a fractional scale gets durations that are multiples of 4
+    for (pi, profile) in profiles.iter_mut().enumerate() {
+        if vehicles.iter().any(|v| v.profile == pi && v.scale.is_some_and(|(_, den)| den > 1)) {
+            profile.dur.iter_mut().for_each(|d| *d *= 4);
+        }
+    }
+
     SProblem { n: n_locs, profiles, jobs, vehicles, relations: vec![], objectives: vec![] }
 }
 
